@@ -85,6 +85,7 @@ pub fn explore_config_with(case: &MpcCase, cap: Option<usize>, bound: u32, seed:
         budget,
         capped: Default::default(),
         max_failures: 20,
+        spurious: case.n() == 2 || std::env::var("PVX_TIER").map(|t| t == "thorough").unwrap_or(false),
     };
     ex.explore();
     use std::sync::atomic::Ordering::Relaxed;
@@ -104,6 +105,8 @@ pub fn explore_config_with(case: &MpcCase, cap: Option<usize>, bound: u32, seed:
 }
 
 pub fn main(tier: Tier, seed: u64) -> i32 {
+    // SAFETY: set before any worker thread exists
+    unsafe { std::env::set_var("PVX_TIER", tier.name()) };
     let mut rep = Report::new("C12", tier, seed, "model_checking");
     if let Err(e) = super::selftest::determinism(seed) {
         rep.machinery(e);
@@ -235,7 +238,7 @@ pub fn main(tier: Tier, seed: u64) -> i32 {
             );
         }
         if rep.samples.len() < 4 {
-            rep.sample(json!({"config": r.name, "example_schedule": "default policy with deviations", "deviation_kinds": ["Swap(k): take k-th enabled action", "Starve(a): postpone a until nothing else is enabled"], "schedules": r.schedules}));
+            rep.sample(json!({"config": r.name, "example_schedule": "default policy with deviations", "deviation_kinds": ["Swap(k): take k-th enabled action", "Starve(a): postpone a until nothing else is enabled", "Spurious(p): poll party p although it was not woken (n=2 in quick, all n in thorough)"], "schedules": r.schedules}));
         }
     }
     // ---- shape sweep: the invariants on many configurations under a few global policies --------
@@ -297,10 +300,10 @@ pub fn main(tier: Tier, seed: u64) -> i32 {
     rep.set("skeleton", json!({"model_states": model_states, "real_executions_accepted_by_model": conformance_words, "model_paths_followed_by_code": conformance_paths, "details": skeleton_reports}));
     rep.set("configurations", json!(configs));
     rep.exhaustive = Some(all_exhaustive);
-    rep.rule = "all schedules with <= bound deviations (swap / starve) from the default policy on the real engine, per (n, p_eval, capacity); states = distinct execution states (per-party observation-history hashes + queue lengths + woken/finished flags + starved set) at explored choice points; transitions = scheduler actions executed; every explored schedule is an execution of the implementation itself (traces_validated_against_impl = schedules)".into();
+    rep.rule = "all schedules with <= bound deviations (swap / starve / spurious poll) from the default policy on the real engine, per (n, p_eval, capacity); states = distinct execution states (per-party observation-history hashes + queue lengths + woken/finished flags + starved set) at explored choice points; transitions = scheduler actions executed; every explored schedule is an execution of the implementation itself (traces_validated_against_impl = schedules)".into();
     rep.assumptions = vec![
         "per-pair FIFO reliable channels".into(),
-        "the root future is polled only when woken (spurious polls are not enumerated)".into(),
+        "spurious polls of an idle party are deviations like any other (n=2 in quick, every n in thorough)".into(),
         "pruning: two executions with equal state key have equal futures under the memoryless default policy".into(),
     ];
     rep.finish()
